@@ -33,6 +33,8 @@ type gen struct {
 	schema map[string][]SchemaJ
 	rid    map[string]int64
 	tmo    int64
+	reported [][2]string     // (upstream, instance) pairs that have sent a report
+	k8s    bool              // API-backed store: leadership is never given up (a new holder would Load the API: C19's subject)
 	kind   map[string]string // flow-control name -> mif | tb | both | none, fixed for the whole history: a schema that
 	// changes its TYPE while conditions of the old type are stored makes calculateUpstreamCondition dereference nil
 	// (flowControlConfig.TokenBucket.QPS on a max-in-flight config) - a defect outside C18, see notes/C18.md
@@ -125,6 +127,7 @@ func (g *gen) report(i string) {
 		items = append(items, items[0])
 	}
 	g.add(Op{Op: "report", U: rig.Hex(u), I: rig.Hex(i), Items: items})
+	g.reported = append(g.reported, [2]string{u, i})
 }
 
 func (g *gen) acquire(i string) {
@@ -155,6 +158,44 @@ func (g *gen) acquire(i string) {
 	g.add(Op{Op: "acquire", U: rig.Hex(u), I: rig.Hex(i), Rid: rid, Reqs: reqs})
 }
 
+// burst: 2-8 acquires of one instance for one flow control arrive in parallel (a joining gateway posts its first
+// acquires from goroutines).
+func (g *gen) burst(i string) {
+	u := g.pickUps()
+	if len(g.schema[u]) == 0 {
+		return
+	}
+	sc := g.schema[u][g.r.Intn(len(g.schema[u]))]
+	n := 2 + g.r.Intn(7)
+	toks := make([]int32, n)
+	for k := range toks {
+		toks[k] = rig.Pick(g.r, []int32{1, 1, 2, 3, 5, 8})
+	}
+	base := g.rid[i]
+	if g.r.Intn(4) == 0 {
+		base = 0 // restarted numbering
+	}
+	g.rid[i] = base + int64(n)
+	g.add(Op{Op: "burst", U: rig.Hex(u), I: rig.Hex(i), FC: sc.Name, Rid: base, Toks: toks})
+}
+
+// condition names the API faults and out-of-band deletions aim at
+func (g *gen) someCondName() string {
+	if len(g.reported) > 0 && g.r.Intn(5) != 0 {
+		// aim at a condition that exists, preferably of an instance that has gone silent
+		p := g.reported[g.r.Intn(len(g.reported))]
+		for try := 0; try < 3 && g.live[p[1]]; try++ {
+			p = g.reported[g.r.Intn(len(g.reported))]
+		}
+		return p[0] + "." + strings.ReplaceAll(p[1], ":", "-")
+	}
+	u := g.pickUps()
+	if g.r.Intn(6) == 0 {
+		return u + ".state"
+	}
+	return u + "." + strings.ReplaceAll(g.pickInst(), ":", "-")
+}
+
 // tick: time passes, the live instances send their heartbeats, the 1 s pass runs.
 func (g *gen) tick() {
 	g.clock += rig.Pick(g.r, []int64{300, 1000, 1000, 1000, 1900, 2000, 3200, 4100, 9000})
@@ -170,8 +211,59 @@ func (g *gen) tick() {
 	}
 }
 
-func genCase(r *rand.Rand, size int, tmo int64) Case {
-	g := &gen{r: r, shards: 1 + r.Intn(3), live: map[string]bool{}, lastHB: map[string]int64{}, schema: map[string][]SchemaJ{},
+// genStorm: many instances join one upstream with a burst of parallel first acquires each, one of them lives on, the
+// others die; both passes; the survivor reports and acquires. Judged at quiescence after every op.
+func genStorm(r *rand.Rand, tmo int64, k8s bool) Case {
+	g := &gen{r: r, shards: 1, live: map[string]bool{}, lastHB: map[string]int64{}, schema: map[string][]SchemaJ{},
+		rid: map[string]int64{}, tmo: tmo, clock: 1000, kind: map[string]string{"fa": "mif"}, k8s: k8s}
+	g.ups = []string{"u0"}
+	m := int64(rig.Pick(r, []int32{40, 1000, 1000000}))
+	g.schema["u0"] = []SchemaJ{{Name: rig.Hex("fa"), Gmif: &m}}
+	g.add(Op{Op: "setLeader", S: 0, B: true})
+	g.add(Op{Op: "list", U: rig.Hex("u0"), Schemas: g.schema["u0"]})
+	g.add(Op{Op: "leaderCheck"})
+	n := 12 + r.Intn(30)
+	for k := 0; k < n; k++ {
+		g.insts = append(g.insts, "gw-"+string(rune('a'+k%26))+"-"+strings.Repeat("x", k/26)+"-join")
+	}
+	for _, i := range g.insts {
+		g.heartbeat(i)
+		toks := make([]int32, 8)
+		for k := range toks {
+			toks[k] = int32(1 + r.Intn(3))
+		}
+		g.add(Op{Op: "burst", U: rig.Hex("u0"), I: rig.Hex(i), FC: rig.Hex("fa"), Rid: 0, Toks: toks})
+		if r.Intn(3) == 0 {
+			g.report(i)
+		}
+	}
+	survivor := g.insts[0]
+	g.clock += tmo + 2000
+	g.heartbeat(survivor)
+	g.unambiguous()
+	g.add(Op{Op: "cleanupTimeout", Now: g.clock})
+	g.add(Op{Op: "cleanupUnknown"})
+	g.report(survivor)
+	g.rid[survivor] = 100
+	g.acquire(survivor)
+	// some of the dead come back with their old identity: first acquires in parallel again
+	for k := 1; k < len(g.insts) && k < 6; k++ {
+		g.heartbeat(g.insts[k])
+		g.burst(g.insts[k])
+	}
+	g.clock += tmo + 2000
+	g.unambiguous()
+	g.add(Op{Op: "cleanupTimeout", Now: g.clock})
+	g.add(Op{Op: "cleanupUnknown"})
+	store := ""
+	if k8s {
+		store = "k8s"
+	}
+	return Case{Shards: 1, Store: store, Ops: g.ops}
+}
+
+func genCase(r *rand.Rand, size int, tmo int64, k8s bool) Case {
+	g := &gen{r: r, k8s: k8s, shards: 1 + r.Intn(3), live: map[string]bool{}, lastHB: map[string]int64{}, schema: map[string][]SchemaJ{},
 		rid: map[string]int64{}, tmo: tmo, clock: 1000, kind: map[string]string{}}
 	for _, n := range fcPool {
 		g.kind[n] = rig.Pick(r, []string{"mif", "mif", "mif", "mif", "mif", "mif", "tb", "tb", "both", "none"})
@@ -218,8 +310,10 @@ func genCase(r *rand.Rand, size int, tmo int64) Case {
 			g.tick()
 		case x < 44:
 			g.report(i)
-		case x < 62:
+		case x < 58:
 			g.acquire(i)
+		case x < 62:
+			g.burst(i)
 		case x < 68:
 			g.add(Op{Op: "cleanupUnknown"})
 		case x < 74: // goes silent
@@ -242,7 +336,22 @@ func genCase(r *rand.Rand, size int, tmo int64) Case {
 			g.live[nw] = true
 			g.heartbeat(nw)
 		case x < 87:
-			g.add(Op{Op: "setLeader", S: r.Intn(g.shards), B: r.Intn(2) == 0})
+			if g.k8s {
+				switch r.Intn(3) {
+				case 0: // the API starts (or stops) refusing the deletes of some conditions
+					var fs []Fault
+					for k := r.Intn(3); k > 0; k-- {
+						fs = append(fs, Fault{Name: rig.Hex(g.someCondName()), Kind: rig.Pick(r, []string{"transient", "lost"})})
+					}
+					g.add(Op{Op: "faults", Faults: fs})
+				case 1:
+					g.add(Op{Op: "apiDelete", Name: rig.Hex(g.someCondName())})
+				default:
+					g.add(Op{Op: "setLeader", S: r.Intn(g.shards), B: true})
+				}
+			} else {
+				g.add(Op{Op: "setLeader", S: r.Intn(g.shards), B: r.Intn(2) == 0})
+			}
 		case x < 91:
 			g.add(Op{Op: "leaderCheck"})
 		case x < 93:
@@ -263,10 +372,17 @@ func genCase(r *rand.Rand, size int, tmo int64) Case {
 	}
 	// the end of every history: everybody silent long enough, both passes
 	if r.Intn(2) == 0 {
+		if k8s {
+			g.add(Op{Op: "faults"}) // the API answers again
+		}
 		g.clock += g.tmo + 5000
 		g.unambiguous()
 		g.add(Op{Op: "cleanupTimeout", Now: g.clock})
 		g.add(Op{Op: "cleanupUnknown"})
 	}
-	return Case{Shards: g.shards, Ops: g.ops}
+	store := ""
+	if k8s {
+		store = "k8s"
+	}
+	return Case{Shards: g.shards, Store: store, Ops: g.ops}
 }
